@@ -1,5 +1,6 @@
 (* Lemmas about DynCore (coq/C12/Dyn.v).  Part 1: which events each phase can emit. *)
 From Coq Require Import List Arith Bool QArith Lia Permutation.
+From Scenic Require C11.LTL.
 From Scenic Require Import C12.Dyn C12.Spec.
 Import ListNotations.
 Local Open Scope nat_scope.
@@ -88,26 +89,45 @@ Proof.
         rewrite revents_emit; apply Forall_app; split; try assumption; apply rec_ok.
 Qed.
 
-Lemma scen_fin_class : forall sc sid el mons k' subs' e, Forall is_scen_ev e ->
-  Forall is_scen_ev (snd (scen_fin w t sc sid el mons k' subs' e)).
+Lemma req_events_class : forall sid rid n, Forall is_scen_ev (req_events sid rid n).
+Proof. intros. apply Forall_forall. intros x Hx. unfold req_events in Hx. apply in_map_iff in Hx. destruct Hx as [? [<- _]]. exact I. Qed.
+
+Lemma update_reqs_class : forall sid rs, Forall is_scen_ev (snd (update_reqs P w t sid rs)).
 Proof.
-  intros. unfold scen_fin.
-  match goal with |- context [if ?c then _ else _] => destruct c end; simpl; auto.
+  induction rs as [|[rid h] r IH]; simpl; auto.
+  destruct (nth_error (p_reqs P) rid) as [[f cs]|].
+  - match goal with |- context [if ?c then _ else _] => destruct c end; simpl; [apply req_events_class|].
+    destruct (update_reqs P w t sid r) as [[l b] e2]. simpl in *. apply Forall_app; split; auto. apply req_events_class.
+  - destruct (update_reqs P w t sid r) as [[l b] e2]; simpl in *; auto.
+Qed.
+
+Lemma stopped_with_class : forall r st e, Forall is_scen_ev e -> Forall is_scen_ev (snd (stopped_with P r st e)).
+Proof. intros. unfold stopped_with. destruct (stop_ok P st); simpl; auto. Qed.
+
+Lemma scen_fin_class : forall sc sid el mons reqs k' subs' e, Forall is_scen_ev e ->
+  Forall is_scen_ev (snd (scen_fin P w t sc sid el mons reqs k' subs' e)).
+Proof.
+  intros. unfold scen_fin, stopped.
+  match goal with |- context [if ?c then _ else _] => destruct c end; [apply stopped_with_class; auto|].
   pose proof (check_termwhen_class (s_termwhen sc) sid 0) as H1.
   destruct (check_termwhen w t sid 0 (s_termwhen sc)) as [b e2]; simpl in H1.
-  destruct b; simpl; apply Forall_app; auto.
+  destruct b; [apply stopped_with_class|simpl]; apply Forall_app; auto.
 Qed.
 
 Lemma scen_body_class : forall st, Forall is_scen_ev (snd (scen_body P w t rec st)).
 Proof.
-  intros [sid el k mons subs]. unfold scen_body.
+  intros [sid el k mons reqs subs]. unfold scen_body, stopped.
   destruct (nth_error (p_scenarios P) sid) as [sc|]; [|apply Forall_nil].
-  destruct (limit_reached sc el); [apply Forall_nil|].
-  destruct k as [kc|]; [|apply scen_fin_class; apply Forall_nil].
+  pose proof (update_reqs_class sid reqs) as HR.
+  destruct (update_reqs P w t sid reqs) as [[reqs' rej] er]; simpl in HR.
+  destruct rej; [exact HR|].
+  destruct (limit_reached sc el); [apply stopped_with_class; auto|].
+  destruct k as [kc|]; [|apply scen_fin_class; auto].
   pose proof (rec_ok (MScen sid) false (OScen sid) subs kc) as H.
   destruct (rec (MScen sid) false (OScen sid) subs kc) as [[out e] subs']. unfold revents in H; simpl in H.
+  assert (HA : Forall is_scen_ev (er ++ e)) by (apply Forall_app; auto).
   destruct out as [y kb'| |c| |pre oo| |]; simpl; auto using scen_fin_class.
-  destruct y; simpl; auto using scen_fin_class.
+  destruct y; simpl; auto using scen_fin_class, stopped_with_class.
 Qed.
 End Classes.
 
@@ -154,15 +174,16 @@ Proof.
   destruct (mons_of_subs recmon qsub r) as [[[l r2] bad2] e2]; simpl in *. apply Forall_app; auto.
 Qed.
 
-Lemma mon_body_class : forall st, Forall is_mon_ev (snd (mon_body rec recmon qsub st)).
+Lemma mon_body_class : forall P st, Forall is_mon_ev (snd (mon_body P rec recmon qsub st)).
 Proof.
-  intros [sid el k mons subs]. unfold mon_body.
+  intros P [sid el k mons reqs subs]. unfold mon_body.
   pose proof (step_monitors_class mons) as H.
   destruct (step_monitors rec mons) as [[[[mons' es] ec] bad] e1]; simpl in H.
   destruct bad; simpl; auto.
   pose proof (mons_of_subs_class subs) as H2.
   destruct (mons_of_subs recmon qsub subs) as [[[l r2] bad2] e2]; simpl in H2.
-  destruct bad2; simpl; apply Forall_app; auto.
+  destruct bad2; simpl; [apply Forall_app; auto|].
+  match goal with |- context [if ?c then _ else _] => destruct c end; simpl; apply Forall_app; auto.
 Qed.
 End MonClasses.
 
@@ -346,6 +367,12 @@ Proof.
       exists [], evs. simpl. repeat split; auto. intros i ev E. destruct i; discriminate.
 Qed.
 
+Lemma final_kind_done : forall P k s, is_done (final_kind P k s) -> final_kind P k s = k.
+Proof.
+  intros P k s D. unfold final_kind in *. destruct k; simpl in *; try contradiction.
+  destruct (top s); auto. destruct (stop_ok P s0); simpl in *; auto; contradiction.
+Qed.
+
 Lemma sim_loop_counts : forall qsub n fuel P w mx sched s res evs,
   sim_loop qsub n fuel P w mx sched s = (res, evs) -> is_done (r_kind res) ->
   r_traj res = traj s + (r_time res - time s) + 1 /\
@@ -365,7 +392,8 @@ Proof.
       split; [lia|split; [lia|split; [|exact Dn]]].
       intros m E LEm. apply C; auto. rewrite T. specialize (LIM _ E). lia.
     + destruct ST as [_ [T K]]. inversion H; subst. simpl in *.
-      destruct k as [ty| | | |]; try contradiction.
+      rewrite (final_kind_done _ _ _ D) in *.
+      destruct k as [ty| | | | |]; try contradiction.
       destruct (K ty eq_refl) as [TR [AL TL]]. rewrite T, TR, AL, rev_length.
       split; [lia|split; [lia|split]].
       * intros m E LEm. split; [lia|]. intros E2. injection E2 as ->. destruct (TL eq_refl) as [m' [E' LE']]. rewrite E in E'. injection E' as ->. lia.
@@ -380,6 +408,7 @@ Lemma simulate_counts : forall qsub n fuel P w mx sched res evs,
   (mx = None -> r_kind res <> RDone TTimeLimit).
 Proof.
   intros qsub n fuel P w mx sched res evs H D. unfold simulate in H.
+  destruct (negb (scene_ok P w)); [inversion H; subst; simpl in D; contradiction|].
   destruct (init_sim P w) as [i e0] eqn:I. destruct i as [s|k].
   - destruct (sim_loop qsub n fuel P w mx sched s) as [res' e] eqn:L. inversion H; subst.
     assert (time s = 0 /\ traj s = 0 /\ actlog s = []) as [T [TR AL]].
@@ -444,7 +473,7 @@ Lemma wait_until_enters : forall f P w t m ib o subs c ss k0,
 Proof. reflexivity. Qed.
 Lemma do_scen_for_enters : forall f P w t m ib o subs l lim ss k0,
   run (S f) P w t m ib o subs (FSeq (SDoScenFor l lim :: ss) :: k0) =
-  run f P w t m ib o subs (FTry true o [SDoScenRaw l] None [(CSince t lim, [SAbort], None)] :: FSeq [SCheck] :: FSeq ss :: k0).
+  run f P w t m ib o subs (FTry true o [SDoScenRaw l] None [(CSince t lim, [SStopSubs; SAbort], None)] :: FSeq [SCheck] :: FSeq ss :: k0).
 Proof. reflexivity. Qed.
 
 (* the time condition of `for n steps` (n a natural number): true from exactly n steps after the start *)
@@ -455,32 +484,61 @@ Proof.
   rewrite <- Nat2Z.inj_le. lia.
 Qed.
 
-(* scenario time limits *)
-Lemma scen_limit_stops : forall f P w t sid el k mons subs sc,
+(* scenario time limits: the requirement monitors are updated FIRST (documented steps 1a, 1b) *)
+Ltac nostop H := unfold stopped, stopped_with in H;
+  match type of H with context [if stop_ok ?P ?s then _ else _] => destruct (stop_ok P s); discriminate end.
+
+Lemma scen_limit_stops : forall f P w t sid el k mons reqs subs sc reqs' er,
   nth_error (p_scenarios P) sid = Some sc -> limit_reached sc el = true ->
-  step_scen (S f) P w t (SState sid el k mons subs) = (SStopped, []).
+  update_reqs P w t sid reqs = (reqs', false, er) ->
+  step_scen (S f) P w t (SState sid el k mons reqs subs) =
+  (if stop_ok P (SState sid el k mons reqs' subs) then (SStopped, er) else (SBad OReject, er)).
+Proof. intros. simpl. unfold scen_body. rewrite H, H1, H0. reflexivity. Qed.
+
+Lemma scen_req_false_rejects : forall f P w t sid el k mons reqs subs sc reqs' er,
+  nth_error (p_scenarios P) sid = Some sc -> update_reqs P w t sid reqs = (reqs', true, er) ->
+  step_scen (S f) P w t (SState sid el k mons reqs subs) = (SBad OReject, er).
 Proof. intros. simpl. unfold scen_body. rewrite H, H0. reflexivity. Qed.
 
-Lemma scen_fin_cont : forall w t sc sid el mons k' subs' e st' e',
-  scen_fin w t sc sid el mons k' subs' e = (SCont st', e') -> st' = SState sid (S el) k' mons subs'.
+Lemma scen_fin_cont : forall P w t sc sid el mons reqs k' subs' e st' e',
+  scen_fin P w t sc sid el mons reqs k' subs' e = (SCont st', e') -> st' = SState sid (S el) k' mons reqs subs'.
 Proof.
-  intros until e'. unfold scen_fin. destruct (match k' with None => has_compose sc | Some _ => false end); [discriminate|].
-  destruct (check_termwhen w t sid 0 (s_termwhen sc)) as [b e2]. destruct b; intros E; inversion E; auto.
+  intros until e'. unfold scen_fin. destruct (match k' with None => has_compose sc | Some _ => false end); [intros E; nostop E|].
+  destruct (check_termwhen w t sid 0 (s_termwhen sc)) as [b e2]. destruct b; intros E; [nostop E|]. inversion E; auto.
 Qed.
 
-Lemma scen_elapsed : forall fuel P w t sid el k mons subs st' e,
-  step_scen fuel P w t (SState sid el k mons subs) = (SCont st', e) ->
-  (exists k' subs', st' = SState sid (S el) k' mons subs') /\
+(* what a step does to the requirement monitors: every history grows by the current valuation *)
+Lemma update_reqs_shape : forall P w t sid rs rs' er,
+  update_reqs P w t sid rs = (rs', false, er) ->
+  Forall2 (fun r r' => fst r' = fst r /\
+                       snd r' = match nth_error (p_reqs P) (fst r) with
+                                | Some (_, cs) => snd r ++ [map (eval w t) cs]
+                                | None => snd r end) rs rs'.
+Proof.
+  induction rs as [|[rid h] r IH]; intros rs' er H; simpl in H.
+  - inversion H; constructor.
+  - destruct (nth_error (p_reqs P) rid) as [[f cs]|] eqn:N.
+    + match type of H with context [if ?c then _ else _] => destruct c end; [discriminate|].
+      destruct (update_reqs P w t sid r) as [[l b] e2] eqn:U. inversion H; subst.
+      constructor; [simpl; rewrite N; auto|]. eapply IH; eauto.
+    + destruct (update_reqs P w t sid r) as [[l b] e2] eqn:U. inversion H; subst.
+      constructor; [simpl; rewrite N; auto|]. eapply IH; eauto.
+Qed.
+
+Lemma scen_elapsed : forall fuel P w t sid el k mons reqs subs st' e,
+  step_scen fuel P w t (SState sid el k mons reqs subs) = (SCont st', e) ->
+  (exists k' reqs' subs' er, st' = SState sid (S el) k' mons reqs' subs' /\ update_reqs P w t sid reqs = (reqs', false, er)) /\
   (forall sc, nth_error (p_scenarios P) sid = Some sc -> limit_reached sc el = false).
 Proof.
-  intros fuel P w t sid el k mons subs st' e H. destruct fuel as [|f]; [discriminate|]. simpl in H. unfold scen_body in H.
+  intros fuel P w t sid el k mons reqs subs st' e H. destruct fuel as [|f]; [discriminate|]. simpl in H. unfold scen_body in H.
   destruct (nth_error (p_scenarios P) sid) as [sc|]; [|discriminate].
-  destruct (limit_reached sc el) eqn:L; [discriminate|].
+  destruct (update_reqs P w t sid reqs) as [[reqs' rej] er] eqn:U. destruct rej; [discriminate|].
+  destruct (limit_reached sc el) eqn:L; [nostop H|].
   split; [|intros sc' E; inversion E; subst; auto].
-  destruct k as [kc|]; [|apply scen_fin_cont in H; eauto].
+  destruct k as [kc|]; [|apply scen_fin_cont in H; eauto 8].
   destruct (run f P w t (MScen sid) false (OScen sid) subs kc) as [[out e1] subs1].
-  destruct out as [y kb'| |c| |pre oo| |]; try discriminate; try (apply scen_fin_cont in H; eauto; fail).
-  destruct y; try discriminate; apply scen_fin_cont in H; eauto.
+  destruct out as [y kb'| |c| |pre oo| |]; try discriminate; try (apply scen_fin_cont in H; eauto 8; fail).
+  destruct y; try discriminate; try (nostop H); apply scen_fin_cont in H; eauto 8.
 Qed.
 
 (* `terminate when`: a true condition stops the scenario in this very step, after the compose block *)
@@ -491,17 +549,20 @@ Proof.
   destruct (eval w t c); simpl; auto. specialize (IH sid (S idx)). destruct (check_termwhen w t sid (S idx) r); simpl in *; auto.
 Qed.
 
-Lemma terminate_when_stops : forall w t sc sid el mons k' subs' e,
-  existsb (eval w t) (s_termwhen sc) = true -> fst (scen_fin w t sc sid el mons k' subs' e) = SStopped.
+Lemma terminate_when_stops : forall P w t sc sid el mons reqs k' subs' e,
+  existsb (eval w t) (s_termwhen sc) = true ->
+  fst (scen_fin P w t sc sid el mons reqs k' subs' e) =
+  (if stop_ok P (SState sid el k' mons reqs subs') then SStopped else SBad OReject).
 Proof.
-  intros. unfold scen_fin. destruct (match k' with None => has_compose sc | Some _ => false end); auto.
+  intros. unfold scen_fin, stopped, stopped_with.
+  destruct (match k' with None => has_compose sc | Some _ => false end); [destruct (stop_ok _ _); reflexivity|].
   pose proof (check_termwhen_true w t (s_termwhen sc) sid 0) as T. destruct (check_termwhen w t sid 0 (s_termwhen sc)) as [b e2].
-  simpl in T. rewrite H in T. subst. reflexivity.
+  simpl in T. rewrite H in T. subst. destruct (stop_ok _ _); reflexivity.
 Qed.
 
-Lemma terminate_when_continues : forall w t sc sid el mons k' subs' e,
+Lemma terminate_when_continues : forall P w t sc sid el mons reqs k' subs' e,
   existsb (eval w t) (s_termwhen sc) = false -> (match k' with None => has_compose sc | Some _ => false end) = false ->
-  fst (scen_fin w t sc sid el mons k' subs' e) = SCont (SState sid (S el) k' mons subs').
+  fst (scen_fin P w t sc sid el mons reqs k' subs' e) = SCont (SState sid (S el) k' mons reqs subs').
 Proof.
   intros. unfold scen_fin. rewrite H0.
   pose proof (check_termwhen_true w t (s_termwhen sc) sid 0) as T. destruct (check_termwhen w t sid 0 (s_termwhen sc)) as [b e2].
@@ -510,56 +571,61 @@ Qed.
 
 (* ---------------------------------------------------------------- terminate after, end to end *)
 Lemma run_mons_S : forall q f P w t st,
-  run_mons q (S f) P w t st = mon_body (run (S f) P w t) (run_mons q f P w t) q st.
+  run_mons q (S f) P w t st = mon_body P (run (S f) P w t) (run_mons q f P w t) q st.
 Proof. reflexivity. Qed.
 
-Lemma run_mons_keeps : forall q fuel P w t sid el k mons subs top3 es ec bad e,
-  run_mons q fuel P w t (SState sid el k mons subs) = ((top3, es, ec, bad), e) -> bad = None -> ec = false ->
-  exists mons' subs', top3 = Some (SState sid el k mons' subs').
+Lemma run_mons_keeps : forall q fuel P w t sid el k mons reqs subs top3 es ec bad e,
+  run_mons q fuel P w t (SState sid el k mons reqs subs) = ((top3, es, ec, bad), e) -> bad = None -> ec = false ->
+  exists mons' subs', top3 = Some (SState sid el k mons' reqs subs').
 Proof.
-  intros q fuel P w t sid el k mons subs top3 es ec bad e H B C. destruct fuel as [|f]; [simpl in H|rewrite run_mons_S in H].
+  intros q fuel P w t sid el k mons reqs subs top3 es ec bad e H B C. destruct fuel as [|f]; [simpl in H|rewrite run_mons_S in H].
   - inversion H; subst. discriminate.
   - unfold mon_body in H.
     destruct (step_monitors (run (S f) P w t) mons) as [[[[mons' a] b] bad1] e1].
     destruct bad1; [inversion H; subst; discriminate|].
     destruct (mons_of_subs (run_mons q f P w t) q subs) as [[[l r2] bad2] e2].
     destruct bad2; [inversion H; subst; discriminate|].
+    destruct b; [|simpl in H].
+    { match type of H with context [if ?c then _ else _] => destruct c end; inversion H; subst; discriminate. }
     inversion H; subst. eauto.
 Qed.
 
 Definition top_elapsed (s : sim) (sid el : nat) : Prop :=
-  exists k mons subs, top s = Some (SState sid el k mons subs).
+  exists k mons reqs subs, top s = Some (SState sid el k mons reqs subs).
 
 Lemma sim_step_elapsed : forall qsub fuel P w mx sched s s' evs sid el,
   sim_step qsub fuel P w mx sched s = (Next s', evs) -> top_elapsed s sid el ->
   top_elapsed s' sid (S el) /\ (forall sc, nth_error (p_scenarios P) sid = Some sc -> limit_reached sc el = false).
 Proof.
-  intros qsub fuel P w mx sched s s' evs sid el H [k [mons [subs T]]]. unfold sim_step, phase_scen in H. rewrite T in H.
-  destruct (step_scen fuel P w (time s) (SState sid el k mons subs)) as [sr e1] eqn:SS.
+  intros qsub fuel P w mx sched s s' evs sid el H [k [mons [reqs [subs T]]]]. unfold sim_step, phase_scen in H. rewrite T in H.
+  destruct (step_scen fuel P w (time s) (SState sid el k mons reqs subs)) as [sr e1] eqn:SS.
   destruct sr as [st| | |x]; try discriminate.
-  1: { apply scen_elapsed in SS. destruct SS as [[k' [subs' ->]] LIM]. split; auto.
+  1: { apply scen_elapsed in SS. destruct SS as [[k' [reqs' [subs' [er [-> _]]]]] LIM]. split; auto.
     unfold phase_mon in H.
-    destruct (run_mons qsub fuel P w (time s) (SState sid (S el) k' mons subs')) as [[[[top3 a] b] bad] e3] eqn:RM.
+    destruct (run_mons qsub fuel P w (time s) (SState sid (S el) k' mons reqs' subs')) as [[[[top3 a] b] bad] e3] eqn:RM.
     destruct bad; [discriminate|].
     destruct (a || b) eqn:AB; [discriminate|]. apply orb_false_iff in AB. destruct AB as [-> ->].
     apply run_mons_keeps in RM; auto. destruct RM as [mons' [subs'' ->]].
     simpl in H. destruct (check_termsim w (time s) 0 (p_termsim P)) as [tc e4]. destruct tc; [discriminate|].
     destruct (step_limit_hit mx (time s)); [discriminate|].
     destruct (beh_phase fuel P w (time s) (sched (time s)) (agents s) []) as [br e5]. destruct br; [|discriminate].
-    inversion H; subst. simpl. unfold top_elapsed. simpl. eauto. }
+    inversion H; subst. simpl. unfold top_elapsed. simpl. eauto 8. }
   all: simpl in H; try discriminate.
 Qed.
 
 Lemma sim_step_at_limit : forall qsub fuel P w mx sched s r evs sid el sc,
   sim_step qsub fuel P w mx sched s = (r, evs) -> top_elapsed s sid el ->
   nth_error (p_scenarios P) sid = Some sc -> limit_reached sc el = true ->
-  (exists s', r = Stop (RDone TScenarioComplete) s' /\ evs = phase_record P s) \/ (exists s', r = Stop RStuck s').
+  (exists s', r = Stop (RDone TScenarioComplete) s') \/ (exists s', r = Stop RStuck s') \/ (exists s', r = Stop RRejected s').
 Proof.
-  intros qsub fuel P w mx sched s r evs sid el sc H [k [mons [subs T]]] N L. unfold sim_step, phase_scen in H. rewrite T in H.
+  intros qsub fuel P w mx sched s r evs sid el sc H [k [mons [reqs [subs T]]]] N L. unfold sim_step, phase_scen in H. rewrite T in H.
   destruct fuel as [|f].
-  - simpl in H. inversion H; subst. right; eauto.
-  - rewrite (scen_limit_stops f P w (time s) sid el k mons subs sc N L) in H. simpl in H.
-    inversion H; subst. left. eexists; split; [reflexivity|]. rewrite app_nil_r. reflexivity.
+  - simpl in H. inversion H; subst. right; left; eauto.
+  - destruct (update_reqs P w (time s) sid reqs) as [[reqs' rej] er] eqn:U. destruct rej.
+    + rewrite (scen_req_false_rejects f P w (time s) sid el k mons reqs subs sc reqs' er N U) in H. simpl in H.
+      inversion H; subst. right; right; eauto.
+    + rewrite (scen_limit_stops f P w (time s) sid el k mons reqs subs sc reqs' er N L U) in H.
+      destruct (stop_ok P (SState sid el k mons reqs' subs)); simpl in H; inversion H; subst; [left|right; right]; eauto.
 Qed.
 
 (* `terminate after n steps` on the top-level scenario: the simulation never runs beyond step n, and
@@ -584,8 +650,9 @@ Proof.
       rewrite <- T in TE'. eapply IH; eauto. lia.
     + inversion H; subst. pose proof (sim_step_shape _ _ _ _ _ _ _ _ _ ST) as [_ [T _]]. simpl. rewrite T. split; auto.
       intros E. assert (limit_reached sc (time s) = true) as LT by (apply LR; lia).
-      destruct (sim_step_at_limit _ _ _ _ _ _ _ _ _ _ _ _ ST TE N LT) as [[s'' [E1 _]]|[s'' E1]]; inversion E1; subst; auto.
-      simpl in D. contradiction.
+      simpl in D. rewrite (final_kind_done _ _ _ D) in *.
+      destruct (sim_step_at_limit _ _ _ _ _ _ _ _ _ _ _ _ ST TE N LT) as [[s'' E1]|[[s'' E1]|[s'' E1]]]; inversion E1; subst; auto;
+      simpl in D; contradiction.
 Qed.
 
 Lemma terminate_after_exact : forall qsub n0 fuel P w mx sched sc n res evs,
@@ -594,13 +661,14 @@ Lemma terminate_after_exact : forall qsub n0 fuel P w mx sched sc n res evs,
   r_time res <= n /\ (r_time res = n -> r_kind res = RDone TScenarioComplete).
 Proof.
   intros qsub n0 fuel P w mx sched sc n res evs N L H D. unfold simulate in H.
+  destruct (negb (scene_ok P w)); [inversion H; subst; simpl in D; contradiction|].
   destruct (init_sim P w) as [i e0] eqn:I. destruct i as [s|k].
   - destruct (sim_loop qsub n0 fuel P w mx sched s) as [res' e] eqn:LP. inversion H; subst.
     unfold init_sim in I. destruct (start_scen P w 0 0) as [st|] eqn:SS; [|inversion I].
     destruct (start_agents P w 0 (p_objects P)); inversion I; subst.
     eapply terminate_after_loop; eauto; simpl; try lia.
     unfold start_scen in SS. rewrite N in SS. destruct (guards_at_start P w 0 (OScen 0)); inversion SS.
-    unfold top_elapsed. simpl. eauto.
+    unfold top_elapsed. simpl. eauto 8.
   - inversion H; subst. simpl in D. unfold init_sim in I.
     destruct (start_scen P w 0 0) as [st|x]; [destruct (start_agents P w 0 (p_objects P)) as [l|x]|]; inversion I; subst;
       destruct x; simpl in D; contradiction.
